@@ -37,6 +37,9 @@ var litmusTests = []litmusCase{
 	{"map-order", 1, []string{"a", "b", "c"}, ""},
 	{"close-wakes-all", 2, []string{"2"}, ""},
 	{"buffered-capacity", 2, []string{"123"}, ""},
+	{"send-on-closed", 1, []string{"PP"}, ""},
+	{"recv-on-closed", 1, []string{"70tf"}, ""},
+	{"close-closed", 1, []string{"P"}, ""},
 	{"race-plain", 1, nil, "race"},
 	{"race-map", 1, nil, "race"},
 	{"race-after-unlock", 2, nil, "race"},
